@@ -46,7 +46,7 @@ theorem observe_calm (L t : Nat) (f : Srv) (h : Calm L t f) :
   obtain ⟨c', hs, hi, htk, hst, hone⟩ := setLeaderInfo_calm L t f.cur hc
   refine ⟨{ f with tick := f.tick + 1, cur := some c' }, ?_, hl, rfl, c', rfl, hi, htk, hst, hone⟩
   unfold turn
-  have hnd : ¬ (c'.static > deadLeaderMinRound) := by unfold deadLeaderMinRound; omega
+  have hnd : ¬ (c'.static > deadLeaderMinRound) := by unfold deadLeaderMinRound Drummer.Gen.deadLeaderMinRound; omega
   simp only [hl, Bool.false_eq_true, if_false, recInst, recTick, hL0, hLf, hs, hnd]
 
 /-- after the holder's renewal the follower is calm again — now strictly behind, whatever its counter is -/
